@@ -126,11 +126,32 @@ TopSeqsDistinct(items) == \A i \in 1..Len(items) : \A j \in 1..Len(items) : i # 
 IsPermOf(a, b) == Len(a) = Len(b) /\ \A k \in 1..Len(a) : Cardinality({i \in 1..Len(a) : a[i] = a[k]}) = Cardinality({i \in 1..Len(b) : b[i] = a[k]})
 SortedBySeq(items) == \A k \in 1..(Len(items) - 1) : R!LeqL(items[k].seq, items[k + 1].seq)
 
+(* a list that came out of acls(configuration): e.want gives, per entry in rendered order, the member lines the configuration
+   defines for its source and destination group (token lists).  The state the following steps are judged from holds THESE
+   members - so whatever the library attached wrongly shows up in every later prediction (tcam estimate, meaning, ...) *)
+WantW(toks) == LET a == ParseAddr(toks) IN Norm(a.w)
+WantMem(ms) == [k \in 1..Len(ms) |-> WantW(ms[k])]
+RECURSIVE PutWanted(_, _, _)
+PutWanted(leaves, want, k) ==
+  IF leaves = <<>> THEN <<>>
+  ELSE LET x == Head(leaves) IN
+       <<IF IsAce(x) THEN [x EXCEPT !.f = [x.f EXCEPT !.src = [x.f.src EXCEPT !.mem = IF x.f.src.k = "group" THEN WantMem(want[k][1]) ELSE <<>>],
+                                                       !.dst = [x.f.dst EXCEPT !.mem = IF x.f.dst.k = "group" THEN WantMem(want[k][2]) ELSE <<>>]]]
+         ELSE x>> \o PutWanted(Tail(leaves), want, k + 1)
+RECURSIVE WithWantedFrom(_, _, _)
+WithWantedFrom(items, want, k) ==
+  IF items = <<>> THEN <<>>
+  ELSE LET h == Head(items)  n == IF IsBlock(h) THEN Len(h.items) ELSE 1 IN
+       <<IF IsBlock(h) THEN [h EXCEPT !.items = PutWanted(h.items, want, k)] ELSE PutWanted(<<h>>, want, k)[1]>>
+       \o WithWantedFrom(Tail(items), want, k + n)
+WithWanted(items, want) == WithWantedFrom(items, want, 1)
+
 ActionClauses(e) ==
   LET o == StateOf(e.obs)
       old == AllIds(pre)
   IN
   CASE e.act = "New" -> Chk(e.exc = "", e, "C17.build-failed")
+                        \o (IF e.has_want THEN Chk(o.items = WithWanted(o.items, e.want), e, "C07.members-attached-by-acls-differ-from-the-configuration") ELSE <<>>)
     [] e.act = "Given" -> <<>>
     [] e.act \in {"SetPortNr", "SetProtocolNr"} ->
          Chk(e.exc = "", e, "C17.switch-raised")
@@ -300,7 +321,7 @@ Init == l = 1 /\ pre = Blank /\ twin = Blank
 Next == /\ l <= Len(TraceLog)
         /\ LET e == TraceLog[l] IN
              /\ Report(IF GivenOk(e) THEN ConsistencyClauses(e) \o ActionClauses(e) \o ShadowClauses(e) ELSE <<>>)
-             /\ pre' = StateOf(e.obs)
+             /\ pre' = IF e.act = "New" /\ e.has_want THEN [StateOf(e.obs) EXCEPT !.items = WithWanted(StateOf(e.obs).items, e.want)] ELSE StateOf(e.obs)
              /\ twin' = IF e.act \in {"Copy", "DataRoundTrip", "Reparse", "TwinOp"} THEN StateOf(e.twin) ELSE twin
         /\ l' = l + 1
 Spec == Init /\ [][Next]_vars
